@@ -7,9 +7,10 @@
    isinstance(prefix, str), is_valid_ipv4(prefix, False), is_valid_ipv4(prefix, True).
    [valid] in the host/port theorems is the verdict of is_valid_ipv6(host). *)
 From Coq Require Import String.
-Require Import OV.Base.Bytes OV.Base.Py OV.Base.PyInt OV.Base.Str OV.Base.C15_PyVal.
-Require Import OV.Gen.C15_Netutils OV.Model.C15 OV.Model.C15_Spec.
-Require Import OV.Proofs.C15_Str OV.Proofs.C15_Eui OV.Proofs.C15.
+Require Import OV.Base.Bytes OV.Base.Py OV.Base.PyInt OV.Base.Str.
+Require Import OV.Base.C11_Lib OV.Model.C11 OV.Model.C11_Spec.
+Require Import OV.Base.C15_PyVal OV.Gen.C15_Netutils OV.Model.C15 OV.Model.C15_Spec OV.Model.C15_Text.
+Require Import OV.Proofs.C15_Str OV.Proofs.C15_Eui OV.Proofs.C15 OV.Proofs.C15_Net OV.Proofs.C15_Mac OV.Proofs.C15_Text.
 Open Scope Z_scope.
 
 (* ---------------------------------------------------------------- EUI-64 *)
@@ -195,3 +196,141 @@ Theorem C15_params_keys_nodup : forall pairs,
   NoDup (map fst (params_collapse pairs)) /\ NoDup (map fst (params_all pairs)).
 Proof. exact params_keys_nodup. Qed.
 Print Assumptions C15_params_keys_nodup.
+
+(* ==================================================================================
+   END TO END ON TEXT (Model/C15_Text.v): no parsing oracle.  [ipnetwork_v p] is
+   netaddr.IPNetwork(p) (C11's parser, proved to accept exactly C11's network texts, extended with
+   the value and prefix length), [valid_ipv4] / [is_valid_ipv6] are C11's models,
+   [eui_of_text m] is netaddr.EUI(m) for the textual MAC / EUI-64 forms, [eui48_print] is
+   str(EUI) in the dialect get_mac_addr_by_ipv6 uses.  Text = list of code points. *)
+
+(* netaddr.IPNetwork(text) succeeds exactly on C11's network texts (C11_ipnetwork_iff) ... *)
+Theorem C15_ipnetwork_accepts : forall s,
+  (exists v6 value plen, ipnetwork_v s = Net v6 value plen) <-> network_text false s \/ network_text true s.
+Proof. exact ipnetwork_v_accepts. Qed.
+Print Assumptions C15_ipnetwork_accepts.
+
+(* ... with these values for the spellings the property names: an RFC 4291 address text of value
+   [value] alone (/128) or followed by '/' and a decimal prefix length *)
+Theorem C15_ipnetwork_decimal : forall a value n, ipv6_value a value -> (n <= 128)%N ->
+  ipnetwork_v (a ++ 47%N :: dec_of_N n) = Net true value n /\ ipnetwork_v a = Net true value 128.
+Proof. exact ipnetwork_v_decimal_both. Qed.
+Print Assumptions C15_ipnetwork_decimal.
+
+(* IPNetwork.first clears the host bits *)
+Theorem C15_net_first : forall value plen, (value < 2 ^ 128)%N -> (plen <= 128)%N ->
+  Z.of_N (net_first true value plen) = network_of value plen.
+Proof. exact net_first_Z. Qed.
+Print Assumptions C15_net_first.
+
+(* every MAC text netaddr.EUI reads as an EUI-48 denotes a value below 2^48; the six-group forms
+   (':' or '-', 1..2 hex digits per group, either case) denote the value of their groups *)
+Theorem C15_mac_text_range : forall m v, eui_of_text m = Some (EUI48 v) -> 0 <= v < 2 ^ 48.
+Proof. exact eui_of_text_48_range. Qed.
+Print Assumptions C15_mac_text_range.
+
+Theorem C15_mac_text_six_groups : forall sep ws, sep = 58%N \/ sep = 45%N ->
+  length ws = 6%nat -> forallb (hexword 1 2) ws = true ->
+  eui_of_text (join [sep] ws) = Some (EUI48 (Z.of_N (words_val 8 ws))).
+Proof. exact eui_of_text_six_groups. Qed.
+Print Assumptions C15_mac_text_six_groups.
+
+(* HEADLINE, forward: for every MAC text m denoting the 48-bit value v and every IPv6 network text p
+   with prefix length <= 64 (host bits or not): the result is network(p) + iid(v) = network(p) | iid(v) *)
+Theorem C15_eui64_text_value : forall p m v value plen,
+  eui_of_text m = Some (EUI48 v) -> ipnetwork_v p = Net true value plen -> (plen <= 64)%N ->
+  get_ipv6_addr_by_EUI64_text p m = Ok (6, network_of value plen + modified_eui64_arith v) /\
+  network_of value plen + modified_eui64_arith v = Z.lor (network_of value plen) (modified_eui64_arith v).
+Proof. exact eui64_text_value. Qed.
+Print Assumptions C15_eui64_text_value.
+
+(* the same for any prefix length as long as the low half of the network address is clear *)
+Theorem C15_eui64_text_value_gen : forall p m v value plen,
+  eui_of_text m = Some (EUI48 v) -> ipnetwork_v p = Net true value plen ->
+  network_of value plen mod 2 ^ 64 = 0 ->
+  get_ipv6_addr_by_EUI64_text p m = Ok (6, network_of value plen + modified_eui64_arith v) /\
+  network_of value plen + modified_eui64_arith v = Z.lor (network_of value plen) (modified_eui64_arith v).
+Proof. exact eui64_text_value_gen. Qed.
+Print Assumptions C15_eui64_text_value_gen.
+
+(* fully declarative on the prefix side: "<RFC 4291 text of value>/<n>", n <= 64 *)
+Theorem C15_eui64_text_value_decimal : forall a value n m v,
+  ipv6_value a value -> (n <= 64)%N -> eui_of_text m = Some (EUI48 v) ->
+  get_ipv6_addr_by_EUI64_text (a ++ 47%N :: dec_of_N n) m = Ok (6, network_of value n + modified_eui64_arith v).
+Proof. exact eui64_text_value_decimal. Qed.
+Print Assumptions C15_eui64_text_value_decimal.
+
+(* HEADLINE, round trip through the text get_mac_addr_by_ipv6 prints *)
+Theorem C15_eui64_text_roundtrip : forall p m v value plen,
+  eui_of_text m = Some (EUI48 v) -> ipnetwork_v p = Net true value plen -> (plen <= 64)%N ->
+  exists r, get_ipv6_addr_by_EUI64_text p m = Ok (6, r) /\
+            get_mac_text r = Some (eui48_print (Z.to_N v)) /\
+            eui_of_text (eui48_print (Z.to_N v)) = Some (EUI48 v).
+Proof. exact eui64_text_roundtrip. Qed.
+Print Assumptions C15_eui64_text_roundtrip.
+
+Theorem C15_eui64_text_roundtrip_literal : forall p v value plen,
+  (v < 2 ^ 48)%N -> ipnetwork_v p = Net true value plen -> (plen <= 64)%N ->
+  exists r, get_ipv6_addr_by_EUI64_text p (eui48_print v) = Ok (6, r) /\ get_mac_text r = Some (eui48_print v).
+Proof. exact eui64_text_roundtrip_literal. Qed.
+Print Assumptions C15_eui64_text_roundtrip_literal.
+
+Theorem C15_mac_print_parse : forall v, (v < 2 ^ 48)%N -> eui_of_text (eui48_print v) = Some (EUI48 (Z.of_N v)).
+Proof. exact eui_print_parse. Qed.
+Print Assumptions C15_mac_print_parse.
+
+(* HEADLINE, exceptions: an IPv4 address text as prefix (C11_ipv4_nonstrict_iff says which texts),
+   a MAC text or a prefix text the library models refuse: ValueError or TypeError; nothing else
+   ever escapes; a result is returned only when none of these holds *)
+Theorem C15_eui64_text_ipv4_rejected : forall p mac,
+  valid_ipv4 false p = AOk true -> exists e, get_ipv6_addr_by_EUI64_gen p mac = Exn e /\ is_VE_TE e.
+Proof. exact eui64_text_ipv4_rejected. Qed.
+Print Assumptions C15_eui64_text_ipv4_rejected.
+
+Theorem C15_eui64_text_bad_mac : forall p m,
+  eui_of_text m = None -> exists e, get_ipv6_addr_by_EUI64_text p m = Exn e /\ is_VE_TE e.
+Proof. exact eui64_text_bad_mac. Qed.
+Print Assumptions C15_eui64_text_bad_mac.
+
+Theorem C15_eui64_text_bad_prefix : forall p m e x,
+  eui_of_text m = Some x -> ipnetwork_v p = NetRaise e ->
+  exists e', get_ipv6_addr_by_EUI64_text p m = Exn e' /\ is_VE_TE e'.
+Proof. exact eui64_text_bad_prefix. Qed.
+Print Assumptions C15_eui64_text_bad_prefix.
+
+Theorem C15_eui64_text_total : forall p m,
+  (exists r, get_ipv6_addr_by_EUI64_text p m = Ok r) \/
+  (exists e, get_ipv6_addr_by_EUI64_text p m = Exn e /\ is_VE_TE e).
+Proof. exact eui64_text_total. Qed.
+Print Assumptions C15_eui64_text_total.
+
+Theorem C15_eui64_text_ok_inv : forall p m r,
+  get_ipv6_addr_by_EUI64_text p m = Ok r ->
+  valid_ipv4 false p <> AOk true /\
+  (exists x, eui_of_text m = Some x) /\ (exists v6 value plen, ipnetwork_v p = Net v6 value plen).
+Proof. exact eui64_text_ok_inv. Qed.
+Print Assumptions C15_eui64_text_ok_inv.
+
+(* escape_ipv6 with C11's is_valid_ipv6: every h that is RFC 4291 text optionally followed by '%'
+   and a scope id of 1..15 characters without '%' or '/' — no parameter left *)
+Theorem C15_host_port_roundtrip_ipv6_text : forall h port, ipv6_scoped_text h ->
+  parse_host_port (escape_ipv6_text h ++ [58%N] ++ dec_of_Z port) VNone = Ok (Some h, Some port).
+Proof. exact host_port_roundtrip_ipv6_text. Qed.
+Print Assumptions C15_host_port_roundtrip_ipv6_text.
+
+Theorem C15_host_default_ipv6_text : forall h d, ipv6_scoped_text h ->
+  parse_host_port (escape_ipv6_text h) (pv_of d) = Ok (Some h, d).
+Proof. exact host_default_ipv6_text. Qed.
+Print Assumptions C15_host_default_ipv6_text.
+
+Theorem C15_host_port_roundtrip_ipv4_text : forall h port, dotted_quad h ->
+  parse_host_port (escape_ipv6_text h ++ [58%N] ++ dec_of_Z port) VNone = Ok (Some h, Some port).
+Proof. exact host_port_roundtrip_ipv4_text. Qed.
+Print Assumptions C15_host_port_roundtrip_ipv4_text.
+
+(* exactly which texts round-trip *)
+Theorem C15_host_port_roundtrip_text_iff : forall h port,
+  parse_host_port (escape_ipv6_text h ++ [58%N] ++ dec_of_Z port) VNone = Ok (Some h, Some port)
+  <-> ipv6_scoped_text h \/ (has_char 58%N h = false /\ prefixb [91%N] h = false).
+Proof. exact host_port_roundtrip_text_iff. Qed.
+Print Assumptions C15_host_port_roundtrip_text_iff.
